@@ -62,12 +62,14 @@ def differential(codec, l, cap, timeout=600):
                exclude=['F-SNAPPY-COPY1', 'F-SNAPPY-LEFTOVER', 'F-SNAPPY-PREAMBLE'] if sn else [])
 
 
-def script(codec, ne, litmax, cpmax, kinds=None, timeout=600):
+def script(codec, ne, litmax, cpmax, kinds=None, timeout=600, lit0=None, cpmin=0):
     sn = codec == 0
     d = ['-DCODEC=%d' % codec, '-DMODE=3', '-DNE=%d' % ne, '-DLITMAX=%d' % litmax, '-DCPMAX=%d' % cpmax]
     if kinds is not None:
         d.append('-DKINDS=1%s' % kinds)   # leading 1 keeps leading zeros (the harness reads NE digits from the right)
     nm = '%s-from-reference-encoder/n%d%s-lit%d-cp%d' % ('snappy' if sn else 'lz4', ne, ('-k' + kinds) if kinds else '', litmax, cpmax)
+    if lit0 is not None:
+        d += ['-DLIT0=%d' % lit0, '-DCPMIN=%d' % cpmin]; nm += '-first-literal%d-copy%d..%d' % (lit0, cpmin, cpmax)
     streamcap = 5 + ne * (5 + litmax) + 8; expcap = ne * max(litmax, cpmax)
     u = {'exact.0': streamcap + 1, 'ref_store_le.0': 9}
     if sn:
@@ -87,7 +89,8 @@ def script(codec, ne, litmax, cpmax, kinds=None, timeout=600):
                   'carquet_lz4_decompress.5': ne + 1,
                   'ref_lz4_write_extra.0': max(litmax, cpmax) // 255 + 2, 'ref_lz4_encode_script.0': litmax + 1, 'ref_lz4_encode_script.1': cpmax + 1,
                   'ref_lz4_encode_script.2': ne + 1})
-    return E1(nm, H, SN if sn else LZ, d, unwindset=u, unwind=max(expcap, streamcap) + 2, backends=BE, timeout=timeout,
+    focus = '' if lit0 is None else '; FOCUSED SHAPE: first literal exactly %d bytes (length in the tag), then a copy/match of %d..%d bytes' % (lit0, cpmin, cpmax)
+    ob = E1(nm, H, SN if sn else LZ, d, unwindset=u, unwind=max(expcap, streamcap) + 2, backends=BE, timeout=timeout,
                ref=['ref_snappy.c', 'ref_rle.c'] if sn else ['ref_lz4.c', 'ref_rle.c'],
                bounds=('script of %d element(s)%s: kinds, literal length form (in the tag / 1-4 length bytes), lengths (literal <= %d, copy <= %d), offsets '
                        'symbolic within legality (as judged by the reference encoder), literal bytes symbolic; capacity passed == expected size, arbitrary bytes behind the stream, canary above the output'
@@ -95,6 +98,8 @@ def script(codec, ne, litmax, cpmax, kinds=None, timeout=600):
                       ('script of %d sequence(s) (last one literals only): literal lengths <= %d, match lengths 4..%d, offsets symbolic within legality, '
                        'literal bytes symbolic; capacity passed == expected size, arbitrary bytes behind the stream, canary above the output' % (ne, litmax, cpmax)),
                functions=FN_SN if sn else FN_LZ, stub_realloc=False)
+    ob.bounds += focus
+    return ob
 
 
 def obligations_c08(tier):
@@ -121,6 +126,9 @@ def obligations(tier):
     o.append(script(1, 2, 2, 24))                    # match lengths >= 19: extension byte
     o.append(script(1, 2, 17, 5))                    # literal lengths >= 15 before a match
     o.append(script(1, 3, 2, 6))
+    # match offsets 8..15 with match lengths >= 16 (wide-copy fast paths of the decoders; added after seeded C09-lz4-decode-16byte-chunks)
+    o.append(script(1, 2, 15, 20, timeout=900, lit0=15, cpmin=16))
+    o.append(script(0, 2, 15, 20, timeout=900, lit0=15, cpmin=16))
     three = ['012', '031'] if quick else ['0%d%d' % (a, b) for a in range(4) for b in range(4)]
     for k in three:
         o.append(script(0, 3, 2, 8, kinds=k, timeout=900))
@@ -129,6 +137,7 @@ def obligations(tier):
         o.append(script(0, 2, 2, 24, timeout=900))
         o.append(script(0, 3, 3, 12, kinds='012', timeout=1200))
         o.append(script(1, 3, 2, 8, timeout=900))
+        o.append(script(1, 2, 15, 20, timeout=2400)); o.append(script(0, 2, 15, 20, timeout=2400))   # unrestricted forms: no verdict in 840 s under load
     return o
 
 
